@@ -1,10 +1,13 @@
 package main
 
 import (
+	"bytes"
 	"encoding/json"
 	"fmt"
 	"sort"
 	"strings"
+	"sync"
+	"time"
 
 	"verifharness/internal/gen"
 	"verifharness/internal/real"
@@ -63,9 +66,31 @@ func badValue(kind string) interface{} {
 		return int64(1) << 32
 	case "uint8-300":
 		return 300
+	// values of defined (named) types: the constructors know the predeclared types only
+	case "named-uint32":
+		return namedU32(7)
+	case "named-float64":
+		return namedF64(1.5)
+	case "named-int":
+		return namedInt(3)
+	case "duration":
+		return time.Duration(5)
+	case "named-string":
+		return namedStr("renamed")
+	case "named-bool":
+		return namedBool(true)
+	case "pointer-to-int":
+		v := 5
+		return &v
 	}
 	return struct{ A int }{1}
 }
+
+type namedU32 uint32
+type namedF64 float64
+type namedInt int
+type namedStr string
+type namedBool bool
 
 func c09Raw(cs c09Case, keys []string) map[string]interface{} {
 	raw := map[string]interface{}{}
@@ -126,6 +151,19 @@ func c09Eval(c *ctx, cs c09Case) {
 	if of.Panicked != od.Panicked {
 		c.Violation("C09/refusal-differs-from-constructor", fmt.Sprintf("FillVariables: %s; direct construction: %s; template %s bad=%v", of, od, clipS(ref.Print(cs.Tpl)), cs.Bad), cs)
 		return
+	}
+	// a message around the template refuses what the template refuses, and accepts what it accepts
+	{
+		var om real.Outcome
+		raw2 := map[string]interface{}{}
+		for k, v := range raw {
+			raw2[k] = v
+		}
+		om = real.Try(func() { ast.NewDataMessage("m", 1, 1, 0, "H->E", tpl).FillVariables(raw2) })
+		if om.Panicked != of.Panicked {
+			c.Violation("C09/message-refusal-differs-from-item", fmt.Sprintf("the item: %s; a message around it: %s; template %s bad=%v", of, om, clipS(ref.Print(cs.Tpl)), cs.Bad), cs)
+			return
+		}
 	}
 	// the template itself is untouched
 	if d := tplSnap.Diff(real.SnapItem(tpl)); d != "" {
@@ -293,7 +331,7 @@ func nearMissKey(r *rng.R, name string) string {
 func runC09(c *ctx) {
 	c.Rule = "ellipsis-free templates over all node kinds (nesting <= 6, variables in scalar slots, list variables, ASCII variables with bounds) x assignments (total, partial, empty, with unknown keys, values of every accepted Go type) : FillVariables must equal direct construction with the values in place (String, Variables, Size, ToBytes), equal the model substitution, leave remaining variables in order, refuse exactly when the constructor refuses (out-of-domain values of 12 kinds), compose over every set partition of <= 4 keys (random ordered splits beyond), and keep the message header while filling. non-trivial = at least one key names a variable of the template; distinct by (template, keys, split, bad values)"
 	c.Assume = []string{"fill-in values are variable-free (as the property quantifies)", "direct construction = the repository's own factories called with the values in place"}
-	badKinds := []string{"neg", "big", "huge", "float", "nan", "str-nonascii", "str-long", "int-for-ascii", "struct", "nil", "bool", "f4-just-over", "f4-over", "f4-neg-over", "int-over-u4", "uint8-300"}
+	badKinds := []string{"neg", "big", "huge", "float", "nan", "str-nonascii", "str-long", "int-for-ascii", "struct", "nil", "bool", "f4-just-over", "f4-over", "f4-neg-over", "int-over-u4", "uint8-300", "named-uint32", "named-float64", "named-int", "duration", "named-string", "named-bool", "pointer-to-int"}
 	n := c.pick(50000, 500000)
 	c.parallel(n, func(i int, r *rng.R) {
 		g := gen.New(r, gen.Profile{MaxDepth: 1 + r.Intn(6), Vars: true, Budget: 300, MaxKids: 4, MaxElems: 5})
@@ -481,7 +519,75 @@ func runC09(c *ctx) {
 			c.Violation("C09/rename/differs-from-direct-construction", fmt.Sprintf("FillVariables(%q: %q) vs the constructor with %q in place: %s; template %s", old, nn, nn, d, clipS(ref.Print(tpl))), cs)
 		}
 	})
-	c.Required = []string{"rename-by-string-value", "total-assignment", "partial-assignment", "empty-assignment", "out-of-domain-values", "refused-by-both", "split-into-2", "split-into-3", "message-level", "message-observed-before-fill", "fill-in-item-with-its-own-variable", "unfilled-ellipsis-and-unknown-ellipsis-key", "near-miss-unknown-key"}
+	// substitution is substitution whoever else is filling the same template at that moment: one shared template per
+	// kind (64 slots, every eighth a variable, alone and inside a list and a message), eight goroutines with their own
+	// values, every result compared with the model of ITS values
+	for _, k := range []ref.Kind{ref.F4, ref.F8, ref.I2, ref.U4, ref.B, ref.BOOLEAN} {
+		tplM := &ref.Item{Kind: k, Slots: make([]ref.Slot, 64)}
+		var names []string
+		for i := 0; i < 64; i += 8 {
+			n := fmt.Sprintf("s%d", i)
+			tplM.Slots[i].Var = n
+			names = append(names, n)
+		}
+		listM := &ref.Item{Kind: ref.L, Children: []*ref.Item{{Kind: ref.U1, Slots: []ref.Slot{{Uint: 1}}}, tplM}}
+		var tpl, lst ast.ItemNode
+		var msg *ast.DataMessage
+		if o := real.Try(func() {
+			tpl = real.Build(tplM)
+			lst = real.Build(listM)
+			msg = ast.NewDataMessage("shared", 1, 1, 0, "H->E", lst).SetSessionIDAndSystemBytes(1, []byte{0, 0, 0, 1})
+		}); o.Panicked {
+			continue
+		}
+		var wg sync.WaitGroup
+		bad := make([]string, 8)
+		for g := 0; g < 8; g++ {
+			wg.Add(1)
+			go func(g int) {
+				defer wg.Done()
+				gr := rng.New(uint64(1000*int(k) + g))
+				gg := gen.New(gr, gen.Profile{})
+				for rep := 0; rep < c.pick(300, 3000) && bad[g] == ""; rep++ {
+					sub := map[string]ref.Val{}
+					raw := map[string]interface{}{}
+					for _, n := range names {
+						v := valSlot(k, gg.Value(k))
+						sub[n] = v
+						raw[n] = rawOf(v)
+					}
+					wantItem, _ := ref.Fill(tplM, sub)
+					wantList, _ := ref.Fill(listM, sub)
+					var b1, b2, b3 []byte
+					o := real.Try(func() {
+						b1 = tpl.FillVariables(raw).ToBytes()
+						b2 = lst.FillVariables(raw).ToBytes()
+						b3 = msg.FillVariables(raw).ToBytes()
+					})
+					switch {
+					case o.Panicked:
+						bad[g] = o.String()
+					case !bytes.Equal(b1, ref.Encode(wantItem)):
+						bad[g] = fmt.Sprintf("item: %x want %x", clipB(b1), clipB(ref.Encode(wantItem)))
+					case !bytes.Equal(b2, ref.Encode(wantList)):
+						bad[g] = fmt.Sprintf("list: %x want %x", clipB(b2), clipB(ref.Encode(wantList)))
+					case len(b3) < 14 || !bytes.Equal(b3[14:], ref.Encode(wantList)):
+						bad[g] = fmt.Sprintf("message: %x want body %x", clipB(b3), clipB(ref.Encode(wantList)))
+					}
+				}
+			}(g)
+		}
+		wg.Wait()
+		c.NoteBulk(8, 8)
+		c.Class("shared-template-filled-by-several-goroutines")
+		for g, b := range bad {
+			if b != "" {
+				c.Violation("C09/fill-differs-from-model-while-others-fill-the-same-template/"+k.String(), fmt.Sprintf("goroutine %d of 8 filling one shared %s[64] template with its own values: %s", g, k, b), c09Case{Tpl: tplM})
+				break
+			}
+		}
+	}
+	c.Required = []string{"shared-template-filled-by-several-goroutines", "rename-by-string-value", "total-assignment", "partial-assignment", "empty-assignment", "out-of-domain-values", "refused-by-both", "split-into-2", "split-into-3", "message-level", "message-observed-before-fill", "fill-in-item-with-its-own-variable", "unfilled-ellipsis-and-unknown-ellipsis-key", "near-miss-unknown-key"}
 }
 
 func replayC09(c *ctx, raw json.RawMessage) {
